@@ -56,7 +56,7 @@ theorem netinv_init (e : Env) : NetInv e (minit e) init := by
 theorem good_start_of_event {e : Env} {ms : MNet} {as : State} (inv : NetInv e ms as) (i : Nat) (hi : i < e.n)
     (hst : started (ms.nodes i) = true) (inp : Inp) :
     Good e as i { nd := ms.nodes i, now := inp.now, fresh := inp.fresh, hints := inp.hints } :=
-  ⟨inv.g, inv.rn i hi, fun pl hp => by simp at hp, by simpa [started] using hst, hi⟩
+  ⟨inv.g, inv.rn i hi, fun pl hp => by simp at hp, fun b s hp => by simp at hp, by simpa [started] using hst, hi⟩
 
 theorem blockAt_eq (nd : Node) (an : NeoModel.Dbft.Node) (h : an.chain = nd.chain) (k : Nat) :
     NeoModel.Dbft.blockAt an k = blockAtH nd k := by
@@ -75,15 +75,22 @@ theorem react_eq (e : Env) (s : MNet) (i : Nat) (ev : Event) (inp : Inp) :
 theorem netinv_react {e : Env} {ms : MNet} {as : State} (inv : NetInv e ms as) (net0 : List (Nat × Pl))
     (hnet0 : ∀ x, x ∈ net0 → x ∈ ms.net) (i : Nat) (ev : Event) (inp : Inp)
     (hp : Prog e i as (syncChain e fuel (handle e (w0 ms i inp) inp.gts ev))) :
-    ∃ as', NetInv e (react e { ms with net := net0 } i ev inp) as' := by
+    ∃ as', NetInv e (react e { ms with net := net0 } i ev inp) as' ∧
+      ∀ b s, Out.block b s ∈ (reaction e { ms with net := net0 } i ev inp).2.1 → ∀ t ∈ s, t.2 = true := by
   obtain ⟨as', x, g⟩ := hp
-  refine ⟨as', ?_⟩
-  rw [react_eq]
-  exact netinv_after (ms := ms) net0 inv hnet0 x g
+  refine ⟨as', ?_, ?_⟩
+  · rw [react_eq]
+    exact netinv_after (ms := ms) net0 inv hnet0 x g
+  · intro b s hb
+    have : Out.block b s ∈ (syncChain e fuel (handle e (w0 ms i inp) inp.gts ev)).out := by
+      have h2 : (reaction e { ms with net := net0 } i ev inp).2.1 =
+          (syncChain e fuel (handle e (w0 ms i inp) inp.gts ev)).out.reverse := rfl
+      rw [h2] at hb; simpa using hb
+    exact g.blk b s this
 
 theorem good_w0 {e : Env} {ms : MNet} {as : State} (inv : NetInv e ms as) (i : Nat) (hi : i < e.n)
     (hst : started (ms.nodes i) = true) (inp : Inp) : Good e as i (w0 ms i inp) :=
-  ⟨inv.g, inv.rn i hi, fun pl hp => by simp [w0] at hp, by simpa [started, w0] using hst, hi⟩
+  ⟨inv.g, inv.rn i hi, fun pl hp => by simp [w0] at hp, fun b s hp => by simp [w0] at hp, by simpa [started, w0] using hst, hi⟩
 
 /-- `initializeConsensus` when nothing is cached: only the timer is armed -/
 theorem initTail_nocache (k : W → Pl → W) (e : Env) (w : W) (view : Nat) (hc : w.nd.cache = []) :
@@ -105,20 +112,34 @@ theorem syncChain_ahead (e : Env) (f : Nat) (w : W) (b : Block) (rest : List Blo
   rw [syncChain]
   simp only [hc, hge, if_true]
 
-/-- every event of the network is matched by an extension of the abstract state -/
+/-- what the machine concerned does in a network event -/
+def evOuts (e : Env) (ms : MNet) (inp : Inp) : NEv → List Out
+  | .start i => (reaction e ms i .start inp).2.1
+  | .deliver to m => (reaction e { ms with net := ms.net.erase (to, m) } to (.recv m) inp).2.1
+  | .tick i => (reaction e ms i .tick inp).2.1
+  | .tx i t => (reaction e ms i (.tx t) inp).2.1
+  | .relay i j =>
+    match blockAtH (ms.nodes j) ((ms.nodes i).height + 1) with
+    | some b => (reaction e ms i (.block b) inp).2.1
+    | none => []
+  | _ => []
+
+/-- every event of the network is matched by an extension of the abstract state, and every block a machine
+hands to its ledger in the event carries signatures of that block only -/
 theorem netinv_step {e : Env} {ms : MNet} {as : State} (inv : NetInv e ms as) (ev : NEv) (inp : Inp)
-    (hen : NEnabled e ms inp ev) : ∃ as', NetInv e (napply e ms inp ev) as' := by
+    (hen : NEnabled e ms inp ev) : ∃ as', NetInv e (napply e ms inp ev) as' ∧
+      ∀ b s, Out.block b s ∈ evOuts e ms inp ev → ∀ t ∈ s, t.2 = true := by
   cases ev with
   | drop to m =>
-    exact ⟨as, inv.g, inv.rn, fun t pl h => inv.net t pl (List.mem_of_mem_erase h)⟩
+    exact ⟨as, ⟨inv.g, inv.rn, fun t pl h => inv.net t pl (List.mem_of_mem_erase h)⟩, fun b s h => by simp [evOuts] at h⟩
   | dup to m =>
-    refine ⟨as, inv.g, inv.rn, fun t pl h => ?_⟩
+    refine ⟨as, ⟨inv.g, inv.rn, fun t pl h => ?_⟩, fun b s h => by simp [evOuts] at h⟩
     simp only [napply, List.mem_cons] at h
     rcases h with h | h
     · cases h; exact inv.net to m hen
     · exact inv.net t pl h
   | pool i l =>
-    refine ⟨as, inv.g, ?_, inv.net⟩
+    refine ⟨as, ⟨inv.g, ?_, inv.net⟩, fun b s h => by simp [evOuts] at h⟩
     intro j hj
     simp only [napply]
     by_cases hji : j = i
@@ -179,7 +200,7 @@ theorem netinv_step {e : Env} {ms : MNet} {as : State} (inv : NetInv e ms as) (e
       subst hnd0
       have g1 : Good e as i (((w0 ms i inp).upd fun nd => { nd with lastTs := inp.gts, cache := [] }).upd
           fun nd => reset e nd 0 (inp.gts * 1000000)) :=
-        ⟨inv.g, r1, fun pl hp => by simp [W.upd, w0] at hp, hne0, hi⟩
+        ⟨inv.g, r1, fun pl hp => by simp [W.upd, w0] at hp, fun b s hp => by simp [W.upd, w0] at hp, hne0, hi⟩
       have hstart : handle e (w0 ms i inp) inp.gts .start =
           (if (initTail (onReceive e fuel) e (((w0 ms i inp).upd fun nd => { nd with lastTs := inp.gts, cache := [] }).upd
               fun nd => reset e nd 0 (inp.gts * 1000000)) 0).nd.isPrimary then
@@ -217,7 +238,7 @@ theorem netinv_step {e : Env} {ms : MNet} {as : State} (inv : NetInv e ms as) (e
   | relay i j =>
     obtain ⟨hi, hj, hst, hsome⟩ := hen
     obtain ⟨b, hb⟩ := Option.isSome_iff_exists.mp hsome
-    simp only [napply, hb]
+    simp only [napply, evOuts, hb]
     have rn := inv.rn i hi
     have rnj := inv.rn j hj
     have invA := inv_reachable (cfgOf e) as inv.g.1
@@ -254,7 +275,7 @@ theorem netinv_step {e : Env} {ms : MNet} {as : State} (inv : NetInv e ms as) (e
     have g1 : Good e (apply (cfgOf e) as (.syncBlock i j)) i
         ((((w0 ms i inp).upd fun nd => addToChain e nd b).upd fun nd => postBlock e nd b).upd
           fun nd => reset e nd 0 ((e.prop b.p).ts * 1000000)) :=
-      ⟨inv.g.ext x1, r1, fun pl hp => by simp [W.upd, w0] at hp, hne0, hi⟩
+      ⟨inv.g.ext x1, r1, fun pl hp => by simp [W.upd, w0] at hp, fun b s hp => by simp [W.upd, w0] at hp, hne0, hi⟩
     obtain ⟨as2, x2, g2⟩ := prog_initTail (kok_onReceive e i fuel) g1 0
     obtain ⟨as3, x3, g3⟩ := prog_syncChain 63 as2 _ g2
     exact ⟨as3, (x1.trans x2).trans x3, g3⟩
